@@ -9,10 +9,10 @@ from cpverif.models import rangemodel as R
 LEVEL = "exploration"
 RULE = (
     "CIDs x the four dialects (ANSI, DB2, Transact-SQL, PL/SQL): (1) exhaustive over the boundary set - Integer ranges whose "
-    "lower and upper limits are taken from {0} and +-(2^k + d), k in {7, 8, 15, 16, 31, 32, 63}, d in {-1, 0, 1} (all "
-    "ordered pairs lower <= upper, ~950 ranges), in CIDs of 6 columns; (2) generated CIDs with field names drawn from each "
+    "lower and upper limits are taken from {0}, +-(2^k + d), k in {7, 8, 15, 16, 31, 32, 63}, and +-(10^k + d), k in {1, 2, 3, 9, 10, 11, 18, 19, 20, 30, 31, 38}, d in {-1, 0, 1} (all "
+    "ordered pairs lower <= upper, ~6500 ranges), in CIDs of 6 columns; (2) generated CIDs with field names drawn from each "
     "dialect's keyword list in three casings and near-misses, Decimal rules with 0-6 fraction digits, length declarations on "
-    "text-like fields, empty flags, Integer fields with rule / with length only / with neither; for a quarter of them also sql.write_create() (the command "
+    "text-like fields, empty flags, Integer fields with rule (one part, or three parts in any order) / with length only / with neither, lengths of several parts in any order; for a quarter of them the CID grows through the API after a first statement and the same factory is asked again; for a quarter of them also sql.write_create() (the command "
     "line's --create) on the CID stored as CSV, ODS and Excel. The CREATE TABLE text is "
     "parsed back into columns and compared with M-ddl: one column per field in order; quoted iff the name is a keyword of "
     "the dialect (plus an anchor list that must stay quoted everywhere and reserved words of single dialects taken from the vendors' lists); NOT NULL iff not allowed to be empty; Integer column "
@@ -267,6 +267,42 @@ def check_write_create(ctx, fields, index):
         ctx.violation("C19:write-create-differs:%s" % how, case, "the statement written for the stored CID differs from the one for the same CID loaded from rows", expected=want, observed=text)
 
 
+def check_grown_cid(ctx, fields):
+    """A CID built through the API that grows after its statement was generated once: the next statement of the same
+    SqlFactory mirrors the CID as it is then (one column per field)."""
+    from cutplace import errors, interface, sql
+
+    if len(fields) < 2:
+        return
+    rows = [["D", "Format", "Delimited"]] + [["F", f["name"], "", "X" if f["empty"] else "", f["length"], f["type"], f["rule"]] for f in fields]
+    cut = 1 + len(fields) // 2
+    for dialect_name, dialect in sorted(sql.SQL_NAME_TO_DIALECT_MAP.items()):
+        case = {"dialect": dialect_name, "fields": fields, "fields_added_after_the_first_statement": len(rows) - 1 - cut + 1}
+        ctx.case(case, True)
+        try:
+            whole = interface.Cid()
+            whole.read("<c19>", [list(r) for r in rows])
+            want = sql.SqlFactory(whole, "some_table", dialect).create_table_statement()
+            cid = interface.Cid()
+            cid.read("<c19>", [list(r) for r in rows[: cut + 1]])
+            factory = sql.SqlFactory(cid, "some_table", dialect)
+            factory.create_table_statement()
+            for row in rows[cut + 1 :]:
+                cid.add_field_format_row(list(row[1:]))
+            got = factory.create_table_statement()
+        except errors.InterfaceError:
+            ctx.count("cid.refused(generator)")
+            return
+        except Exception as error:
+            mod, fn = core.innermost_cutplace_frame(error)
+            ctx.violation("C19:crash:%s@%s.%s" % (type(error).__name__, mod, fn), case, "generating the statement of a grown CID failed", observed=error)
+            return
+        ctx.count("grown-cids.judged")
+        if got != want:
+            ctx.violation("C19:statement-of-a-grown-cid", case, "after fields were added to the CID the factory's statement is not the statement of the CID as it is now", expected=want, observed=got)
+            return
+
+
 def usable_name(name):
     return re.match(r"^[A-Za-z][A-Za-z0-9_]*$", name) is not None and not keyword.iskeyword(name)
 
@@ -326,6 +362,15 @@ def run(ctx):
                     f["rule"] = "%d%s%d" % (lo, rng.choice(["...", ":", "…"]), hi)
                     f["limits"] = [lo, hi]
                     f["near_boundary"] = True
+                elif form < 0.7:
+                    # several parts, in any order: the column has to hold the smallest and the largest limit of all parts
+                    points = sorted(rng.sample(values + [rng.randint(-(10**6), 10**6) for _ in range(6)], 6))
+                    parts = [(points[0], points[1]), (points[2], points[3]), (points[4], points[5])]
+                    rng.shuffle(parts)
+                    f["rule"] = ", ".join("%d%s%d" % (a, rng.choice(["...", ":"]), b) for a, b in parts)
+                    f["limits"] = [points[0], points[5]]
+                    f["near_boundary"] = True
+                    ctx.count("integer-fields.several-parts")
                 elif form < 0.8:
                     digits = rng.randint(1, 12)
                     f["length"] = str(digits)
@@ -364,7 +409,9 @@ def run(ctx):
                     f["length"], f["upper_length"] = "%d..." % rng.randint(0, 9), None
                 elif form < 0.7:
                     a = rng.randint(1, 5)
-                    f["length"], f["upper_length"] = "%d, %d...%d" % (a, a + 2, a + 7), a + 7
+                    f["length"], f["upper_length"] = rng.choice(["%d, %d...%d", "%d, %d...%d", "%d...%d, %d", "%d...%d, %d...%d, %d"]), a + 7
+                    f["length"] = {"%d, %d...%d": "%d, %d...%d" % (a, a + 2, a + 7), "%d...%d, %d": "%d...%d, %d" % (a + 2, a + 7, a),
+                                   "%d...%d, %d...%d, %d": "%d...%d, %d...%d, %d" % (a, a + 1, a + 5, a + 7, a + 3)}[f["length"]]
                 else:
                     f["upper_length"] = None
                 if t == "Choice":
@@ -377,6 +424,8 @@ def run(ctx):
         check_cid(ctx, fields)
         if i % 4 == 0:
             check_write_create(ctx, fields, i // 4)
+        if i % 4 == 1:
+            check_grown_cid(ctx, fields)
 
 
 def replay(ctx, case):
